@@ -184,6 +184,13 @@ class World(WorldBase):
         return ad.components()
 
     @staticmethod
+    def preflight():
+        from worlds import c18_adapters as ad
+        _c, _e, missing = ad.completeness()
+        if missing:
+            raise HarnessError("public entry points with neither an adapter nor a stated exclusion: " + ", ".join(missing))
+
+    @staticmethod
     def make_swarm(rng, batch):
         from worlds import c18_adapters as ad
         groups = sorted(ad.GROUPS)
